@@ -11,7 +11,6 @@ use crate::engine::{self, AState, SimInfo, Violation, CONTROLLER};
 use crate::mtypes::*;
 use crate::mworld::*;
 
-#[derive(Default)]
 pub struct OracleState {
     pub idle_prev: Vec<u32>,
     pub site_log_pos: usize,
@@ -24,6 +23,30 @@ pub struct OracleState {
     pub quiescent_points: u64,
     pub abstract_states: BTreeMap<(usize, usize, usize, usize, usize, usize, bool), u64>,
     pub max_concurrent_gets: usize,
+    /// C08 reference queue: idle ids, longest idle first
+    pub idle_model: Vec<u32>,
+    pub model_ordered: bool,
+    pub last_op_of_actor: BTreeMap<usize, usize>,
+}
+
+impl Default for OracleState {
+    fn default() -> Self {
+        OracleState {
+            idle_prev: Vec::new(),
+            site_log_pos: 0,
+            wake_log_pos: 0,
+            closed_step: None,
+            close_invoked: false,
+            shrunk: false,
+            rest_points: 0,
+            quiescent_points: 0,
+            abstract_states: BTreeMap::new(),
+            max_concurrent_gets: 0,
+            idle_model: Vec::new(),
+            model_ordered: true,
+            last_op_of_actor: BTreeMap::new(),
+        }
+    }
 }
 
 fn is(w: &MWorld, p: &str) -> bool {
@@ -46,6 +69,13 @@ pub fn snapshot(w: &MWorld) -> Option<Snap> {
 
 pub fn on_call(w: &mut MWorld, ci: usize) {
     let kind = w.calls[ci].kind;
+    if is(w, "C08") && !w.draining {
+        c08_attempt_target(w, ci);
+        c08_on_call(w, ci);
+    }
+    if is(w, "C13") {
+        c13_on_call(w, ci);
+    }
     if kind == CallKind::Create && is(w, "C01") && !w.draining {
         let n = w.n_live() + w.n_inflight_creates() + 1;
         if n > w.sc.pool.max_size {
@@ -115,6 +145,13 @@ pub fn on_take_done(w: &mut MWorld, opi: usize, _id: u32) {
     check_sync_panic(w, opi);
 }
 pub fn on_metrics_reported(w: &mut MWorld, id: u32, m: MSeen) {
+    if is(w, "C13") {
+        if let Some(l) = w.objs[id as usize].last_reported {
+            if l != m {
+                w.violate("C13", "metrics_stable_while_held", format!("Object::metrics() of held object #{id} changed between two observations"));
+            }
+        }
+    }
     w.objs[id as usize].last_reported = Some(m);
 }
 pub fn on_resize_invoke(_w: &mut MWorld, _opi: usize, _n: usize) {}
@@ -238,6 +275,11 @@ pub fn after_step(w: &mut MWorld, _info: &SimInfo) -> Option<Violation> {
         *w.orc.abstract_states.entry(key).or_insert(0) += 1;
         if is(w, "C11") {
             if let Some(v) = c11_plausible(w, sn) {
+                return Some(v);
+            }
+        }
+        if is(w, "C08") && !w.draining {
+            if let Some(v) = c08_step(w, _info, sn) {
                 return Some(v);
             }
         }
@@ -778,4 +820,230 @@ pub fn c04_final(w: &MWorld) -> Option<Violation> {
         }
     }
     None
+}
+
+// ---- C08: reuse order, lazy creation, no background work ------------------------------
+
+fn c08(clause: &str, d: String) -> Option<Violation> {
+    Some(crate::engine::violation("C08", clause, d))
+}
+
+/// Called for every manager / hook / predicate / detach call.
+pub fn c08_on_call(w: &mut MWorld, ci: usize) {
+    let c = w.calls[ci].clone();
+    if c.op.is_none() {
+        let d = format!(
+            "{} was called outside of any pool operation (by {})",
+            c.kind.name(),
+            actor_name(c.actor)
+        );
+        w.violate("C08", "call_outside_operation", d);
+        return;
+    }
+    let opk = w.ops[c.op.unwrap()].op;
+    let allowed = match c.kind {
+        CallKind::Create | CallKind::Recycle | CallKind::PostCreate(_) | CallKind::PreRecycle(_) | CallKind::PostRecycle(_) => {
+            matches!(opk, Op::Get { .. }) || c.actor == CONTROLLER
+        }
+        CallKind::Pred => matches!(opk, Op::Retain { .. }),
+        CallKind::Detach => true,
+    };
+    if !allowed {
+        let d = format!("{} was called from inside {:?}", c.kind.name(), opk);
+        w.violate("C08", "call_from_wrong_operation", d);
+        return;
+    }
+    if c.kind == CallKind::Create && c.actor != CONTROLLER {
+        // lazy creation: the idle queue must be empty at the moment create() is called
+        if let Some(sn) = snapshot(w) {
+            if !sn.idle.is_empty() {
+                let d = format!("Manager::create called while idle objects {:?} had not been tried", sn.idle);
+                w.violate("C08", "create_only_when_no_idle", d);
+            } else {
+                w.cnt.probe("create_with_empty_queue");
+            }
+        }
+    }
+}
+
+/// Per-step update of the reference queue (order kept by the harness, membership from the visitor).
+fn c08_step(w: &mut MWorld, info: &SimInfo, sn: &Snap) -> Option<Violation> {
+    let prev: Vec<u32> = w.orc.idle_prev.clone();
+    let removed: Vec<u32> = prev.iter().copied().filter(|i| !sn.idle.contains(i)).collect();
+    let added: Vec<u32> = sn.idle.iter().copied().filter(|i| !prev.contains(i)).collect();
+    let actor = match info.last {
+        crate::engine::Decision::Run(a) | crate::engine::Decision::Cancel(a) | crate::engine::Decision::Spurious(a) => Some(a),
+        _ => None,
+    };
+    let lifo = w.sc.pool.lifo;
+    if !removed.is_empty() && w.orc.model_ordered {
+        let by_get = actor
+            .and_then(|a| w.cur_op.get(a).copied().flatten().or(w.orc.last_op_of_actor.get(&a).copied()))
+            .map(|opi| matches!(w.ops[opi].op, Op::Get { .. }))
+            .unwrap_or(false);
+        if by_get {
+            // the get popped |removed| objects in this step: they must be the longest idle
+            // (Fifo) / most recently idle (Lifo) ones of the reference queue, in that order
+            let m = &w.orc.idle_model;
+            let n = removed.len().min(m.len());
+            let expect: Vec<u32> = if lifo {
+                m.iter().rev().take(n).copied().collect()
+            } else {
+                m.iter().take(n).copied().collect()
+            };
+            let mut got = removed.clone();
+            let mut exp_sorted = expect.clone();
+            got.sort();
+            exp_sorted.sort();
+            if got != exp_sorted {
+                return c08(
+                    "reuse_order",
+                    format!(
+                        "{} mode: get() took {:?} out of the idle queue, reference queue (longest idle first) is {:?}",
+                        if lifo { "Lifo" } else { "Fifo" },
+                        removed,
+                        m
+                    ),
+                );
+            }
+            w.cnt.probe(if m.len() > 1 { "order_checked_with_choice" } else { "order_checked_single" });
+        }
+    }
+    w.orc.idle_model.retain(|i| !removed.contains(i));
+    if added.len() > 1 {
+        w.orc.model_ordered = false;
+    }
+    for a in added {
+        w.orc.idle_model.push(a);
+    }
+    // no background work: the runtime never has a spawned task
+    let tasks = tokio::runtime::Handle::current().metrics().num_alive_tasks();
+    if tasks != 0 {
+        return c08("no_background_tasks", format!("{tasks} task(s) are alive on the runtime although the harness spawns none"));
+    }
+    None
+}
+
+/// The first call of a recycling attempt must target the object the reference queue offers.
+fn c08_attempt_target(w: &mut MWorld, ci: usize) {
+    let c = w.calls[ci].clone();
+    let first_kind = if w.sc.pool.pre_recycle.is_empty() {
+        CallKind::Recycle
+    } else {
+        CallKind::PreRecycle(0)
+    };
+    if c.kind != first_kind || !w.orc.model_ordered {
+        return;
+    }
+    // the object was popped earlier in this step or in an earlier step of this get; at pop time it
+    // must have been at the head of the reference queue. Objects popped by this get and not yet
+    // judged by the per-step rule are still in the model: x must be the head among them.
+    let Some(x) = c.obj else { return };
+    let m = &w.orc.idle_model;
+    if m.contains(&x) {
+        let head = if w.sc.pool.lifo { m.last() } else { m.first() };
+        if head != Some(&x) {
+            let d = format!(
+                "{} mode: recycling attempt targets #{x}, reference queue (longest idle first) is {:?}",
+                if w.sc.pool.lifo { "Lifo" } else { "Fifo" },
+                m
+            );
+            w.violate("C08", "reuse_order", d);
+            return;
+        }
+        // popped within this step: remove now so that a second pop in the same step is judged too
+        w.orc.idle_model.retain(|i| *i != x);
+        w.orc.idle_prev.retain(|i| *i != x);
+        w.cnt.probe("order_checked_at_first_call");
+    }
+}
+
+// ---- C13: per-object metrics ------------------------------------------------------------
+
+fn c13v(w: &mut MWorld, clause: &str, d: String) {
+    w.violate("C13", clause, d);
+}
+
+pub fn c13_on_handout(w: &mut MWorld, id: u32, m: MSeen, prev: Option<MSeen>, h: u32) {
+    let first = w.objs[id as usize].first_created;
+    if let Some(f) = first {
+        if f != m.created {
+            c13v(w, "created_never_changes", format!("object #{id}: creation instant changed between observations"));
+            return;
+        }
+    }
+    if m.recycle_count as u32 != h - 1 {
+        c13v(
+            w,
+            "recycle_count_equals_reuses",
+            format!("object #{id} handed out for the {h}. time reports recycle_count {}", m.recycle_count),
+        );
+        return;
+    }
+    if h == 1 && m.recycled.is_some() {
+        c13v(w, "recycled_absent_until_first_reuse", format!("object #{id}: first hand-out already has a last-recycled instant"));
+        return;
+    }
+    if h > 1 {
+        match m.recycled {
+            None => {
+                c13v(w, "recycled_set_on_reuse", format!("object #{id}: hand-out #{h} has no last-recycled instant"));
+                return;
+            }
+            Some(t) => {
+                if t < m.created {
+                    c13v(w, "recycled_monotone", format!("object #{id}: last-recycled is before creation"));
+                    return;
+                }
+                if let Some(Some(p)) = prev.map(|p| p.recycled) {
+                    if t < p {
+                        c13v(w, "recycled_monotone", format!("object #{id}: last-recycled moved backwards"));
+                        return;
+                    }
+                }
+            }
+        }
+        w.cnt.probe("metrics_checked_on_reuse");
+    }
+}
+
+/// Metrics seen by hooks / recycle / retain must be the ones last reported to a caller.
+pub fn c13_on_call(w: &mut MWorld, ci: usize) {
+    let c = w.calls[ci].clone();
+    let (Some(id), Some(m)) = (c.obj, c.metrics) else { return };
+    let o = &w.objs[id as usize];
+    let expect = match o.last_reported {
+        Some(l) => l,
+        None => {
+            // never handed out yet: fresh metrics
+            if m.recycle_count != 0 || m.recycled.is_some() {
+                c13v(w, "fresh_object_metrics", format!("{} saw recycle_count {} / recycled {:?} on brand-new object #{id}", c.kind.name(), m.recycle_count, m.recycled.is_some()));
+            } else if let Some(f) = o.first_created {
+                if f != m.created {
+                    c13v(w, "created_never_changes", format!("object #{id}: creation instant changed between observations"));
+                }
+            } else {
+                w.objs[id as usize].first_created = Some(m.created);
+            }
+            return;
+        }
+    };
+    if m != expect {
+        let what = if c.kind == CallKind::Pred { "retain_sees_last_reported" } else { "hooks_see_metrics_before_handout" };
+        c13v(
+            w,
+            what,
+            format!(
+                "{} saw recycle_count {} (recycled set: {}) for object #{id}; Object::metrics() last reported recycle_count {} (recycled set: {}){}",
+                c.kind.name(),
+                m.recycle_count,
+                m.recycled.is_some(),
+                expect.recycle_count,
+                expect.recycled.is_some(),
+                if m.created != expect.created { "; created differs" } else if m.recycled != expect.recycled { "; recycled instant differs" } else { "" }
+            ),
+        );
+    } else {
+        w.cnt.probe("metrics_checked_in_call");
+    }
 }
